@@ -12,6 +12,9 @@ dune/common/math.hh and fvector.hh.   Core Lean only.
   unrepaired tree, kept to state the defect; `round` is the code after `fixes/C17_round_unsigned.patch` and
   `fixes/C17_round_range_end.patch` (`roundDownOld`: before the latter), `trunc` after `fixes/C17_trunc_large.patch`;
   `roundM` / `truncM`: the same with the integer target type explicit (what the driver executes);
+* round four: `Dispatch` / `ZeroTest` (the shape of the towardZero / towardInf specialisations, whose content is regenerated
+  into `Gen/C17RT.lean`), `fillLoop` / `allLoop` (the loop combinators of the regenerated vector overloads,
+  `Gen/C17Vec.lean`, `Gen/C17EqVec.lean`);
 * `sign`; the classifiers `isNaN / isInf / isFinite / isUnordered` over `FieldVector` and `std::complex`.
 -/
 import DuneVerif.Gen.C17
@@ -262,6 +265,12 @@ def Dispatch.run (d : Dispatch) (base : RStyle → K → K → Int) (val eps : K
   if d.test.eval val then base d.thenStyle val eps else base d.elseStyle val eps
 
 end cmp
+
+/-- `for(i = lo; i < hi; ++i) if(!f(i)) return false;  return true;`  (`n` iterations left, the next index is `i`) -/
+def allLoopAux (f : Nat → Bool) : Nat → Nat → Bool
+  | _, 0 => true
+  | i, n + 1 => if !(f i) then false else allLoopAux f (i + 1) n
+def allLoop (lo hi : Nat) (f : Nat → Bool) : Bool := allLoopAux f lo (hi - lo)
 
 /-- `std::vector<I> res(size); for(i = lo; i < hi; ++i) res[i] = f(i); return res;` — the entries outside `[lo, hi)` keep
     the value `res` was created with (0 for `std::vector<I>(size)`) -/
